@@ -358,6 +358,29 @@ func vpStepObligations(e *vEnv, pre *vSnap, msg *vPayload) {
 			vAssert("C04.O3.evidence", cnt >= d.M())
 		}
 	}
+	if (e.want("C05") || e.want("C08")) && msg != nil && msg.height > pre.height && int(msg.vidx) < e.n && e.api != apiRecoveryRequest && e.api != apiRecoveryMessage {
+		// a payload for a later height is kept for that height, whether or not this height is
+		// already decided (C05: "payloads received early for the new height are taken into
+		// account"; C08: messages that reach a node before it has entered their height)
+		vCover("C05.O5.future")
+		ib := d.cache.mail[msg.height]
+		ok := ib != nil
+		if ok {
+			var m ConsensusPayload[vhash]
+			switch e.api {
+			case apiPrepareRequest, apiPrepareResponse:
+				m = ib.prepare[msg.vidx]
+			case apiChangeView:
+				m = ib.chViews[msg.vidx]
+			case apiCommit:
+				m = ib.commit[msg.vidx]
+			case apiPreCommit:
+				m = ib.preCommit[msg.vidx]
+			}
+			ok = m == ConsensusPayload[vhash](msg)
+		}
+		vAssert("C05.O5.futurecached", ok)
+	}
 	if e.want("C05") && e.quiet() {
 		vCover("C05.O2.decided")
 		vAssert("C05.O2.unchanged", vpUnchanged(pre, e))
